@@ -50,9 +50,29 @@ def _tr_cfgs():
     out = []
     for cls, dims in SRC_DIM.items():
         for d in dims:
-            out.append({"cls": cls, "d": d, "n": None})
             out.append({"cls": cls, "d": d, "n": 2})
     return out
+
+
+@contract(SP + "TransformedHistogramMixin.transform", props=["C15"], name=SP + "TransformedHistogramMixin.transform[single point]")
+class _transform_point:
+    """one point of the class's source dimension: ALL inputs of this call shape (nothing is bounded: the dimension is part of the
+    class); hypot / arctan2 / arccos are uninterpreted symbols with their defining axioms (DESIGN 2.5)"""
+
+    def configs():
+        return [{"cls": cls, "d": d, "n": None} for cls, dims in SRC_DIM.items() for d in dims]
+
+    def inputs(b):
+        return dict(cls=b.module_attr("physt.special_histograms", b.cfg.cls), value=b.array("p", (b.cfg.d,)))
+
+    def invoke(I, fn, a, cfg):
+        if I is not None:
+            return I.call(I.getattr(a.cls, "transform"), [a.value], {})
+        return a.cls.transform(a.value)
+
+    @ensures("true_coordinates_in_the_class_axis_order")
+    def _(a, old, result):
+        return _tr_clause(a, old, result)
 
 
 @contract(SP + "TransformedHistogramMixin.transform", props=["C15"])
@@ -73,6 +93,11 @@ class _transform:
 
     @ensures("true_coordinates_in_the_class_axis_order")
     def _(a, old, result):
+        return _tr_clause(a, old, result)
+
+
+def _tr_clause(a, old, result):
+    if True:
         cls = a._cfg_cls
         pts = [elems(old.value)] if a._cfg_n is None else aslist(old.value)
         k = OUT_DIM[cls]
